@@ -1039,6 +1039,26 @@ func (ec *evalCtx) call(x *CCall) (TV, error) {
 				return TV{}, fmt.Errorf("typeOf needs an interface value")
 			}
 			return TV{T: ifTag(v.T), Tag: true, Ty: types.Typ[types.Int]}, nil
+		case "implements":
+			// implements(v, I): the dynamic type of the interface value v implements interface type I -
+			// the predicate a type switch / comma-ok assertion to I decides (execTypeAssert)
+			if len(x.Args) != 2 {
+				return TV{}, fmt.Errorf("implements(value, InterfaceType)")
+			}
+			v, err := ec.eval(x.Args[0])
+			if err != nil {
+				return TV{}, err
+			}
+			ty, ok := ec.asType(x.Args[1])
+			if !ok {
+				return TV{}, fmt.Errorf("implements: second argument is not a type")
+			}
+			if _, isIface := under(ty).(*types.Interface); !isIface || v.T.Sort != SIface {
+				return TV{}, fmt.Errorf("implements needs an interface value and an interface type")
+			}
+			name := "implements_" + sanitize(types.TypeString(ty, nil))
+			c.sc.declFun(name, []Sort{SInt}, SBool)
+			return TV{T: and(not(eq(ifTag(v.T), Term{"0", SInt})), mk(SBool, name, ifTag(v.T))), Ty: types.Typ[types.Bool]}, nil
 		case "same":
 			// identical values (SMT equality; Go's == on structs/arrays compares fieldwise)
 			if len(x.Args) != 2 {
